@@ -9,9 +9,13 @@
        forall f c bd, c04_call_ok f c -> c04_result_ok f (bd ..) -> run f c bd = twin f c bd        (FALSE)
 
    where `twin` is the undecorated callable applied to the same call (CPython's binding, the body's own
-   outcome, journal = that one invocation).  False on the unchanged tree in seven regions (`*_refuted`, each
+   outcome, journal = that one invocation).  False on the unchanged tree in several regions (`*_refuted`, each
    reproduced on the real code as a KNOWN-FINDING by bin/check C04); proved under the guards `kw_guards`
-   that exclude exactly them (`C04_transparent_partial` and its corollaries).  Relative to the checker:
+   that exclude exactly them (`C04_transparent_partial` and its corollaries) and under `no_iterator_consumed` /
+   `result_intact`: no one-shot iterator, AT ANY DEPTH of a supplied value or of the returned value, is reached by the traversal
+   of the checker (Model.Pedantic.drain / consumes_model; refuted otherwise for a top-level, a nested and a returned iterator).
+   Positional-only parameters are inside the guards as long as none of their names is used as a keyword of the call
+   (`kg_posonly`; refuted otherwise: `C04_posonly_name_as_keyword_refuted`).  Relative to the checker:
    the Section hypothesis `checker_sound_complete` is discharged by the C01/C02 lemmas.              *)
 From Coq Require Import List Arith Bool String ZArith Lia.
 From PV Require Import Base.Exn Base.Values Base.Ann Base.PyCall Model.CheckerCfg Model.Checker Model.PedanticCfg
@@ -30,15 +34,29 @@ Theorem C04_transparent_relative : forall pc check consumes f c bd b r,
   pc_good pc = true ->
   kw_guards pc f c -> twin_binding f c = Ok b ->
   (forall oa v, In (oa, v) (supplied_of f c b) -> exists a, oa = Some a /\ accepts_intact check consumes a v) ->
-  f_ret f = Some r -> (forall b' cons v, bd b' cons = Ok v -> accepts check r v) ->
+  f_ret f = Some r -> (forall b' cons v, bd b' cons = Ok v -> accepts_intact check consumes r v) ->
   run pc check consumes f c bd = twin f c bd.
 Proof. intros. eapply transparent; eassumption. Qed.
 Print Assumptions C04_transparent_relative.
 
+(* calling a generator function: under the same guards the caller gets a wrapper around exactly the generator the undecorated
+   function would have returned - created on the binding CPython gives the undecorated function, nothing consumed, no part of
+   the body has run yet - and its yield / send / return types are those of the return annotation.  Together with
+   `C04_generator_transparent_partial` (every run of such a wrapper): the whole life of a @pedantic generator function. *)
+Theorem C04_generator_call_transparent_partial : forall pc check consumes f c b a t,
+  pc_good pc = true ->
+  kw_guards pc f c -> twin_binding f c = Ok b ->
+  (forall oa v, In (oa, v) (supplied_of f c b) -> exists a0, oa = Some a0 /\ accepts_intact check consumes a0 v) ->
+  f_ret f = Some a -> gen_types pc a = Ok t ->
+  run_gen pc check consumes f c = (Ok {| g_bind := b; g_cons := []; g_types := Some t |}, []).
+Proof. intros. eapply gen_call_transparent; eassumption. Qed.
+Print Assumptions C04_generator_call_transparent_partial.
+
 (* generator functions: if everything the generator yields / returns and everything that is sent conforms (the checker
    accepts it), the caller of the GeneratorWrapper observes exactly the sequence of results the caller of the undecorated
    generator observes - for every generator body and every sequence of next / send / throw / close operations (induction on
-   the sequence).  Guard `accepts rt None`: an exhausted generator (finding C04-exhausted-generator). *)
+   the sequence).  Guard `accepts rt None`: an exhausted generator (finding C04-exhausted-generator).  Guard `op_ok` for a
+   next(): the send type accepts None (refuted otherwise: C04_generator_next_with_send_type_refuted). *)
 Theorem C04_generator_transparent_partial : forall check yt st rt body ops w,
   (forall h y, body h = GYield y -> g_accepts check yt y) ->
   (forall h r, body h = GReturn r -> g_accepts check rt r) ->
@@ -76,29 +94,32 @@ Section Relative.
     pc_good pc = true -> kw_guards pc f c -> no_iterator_consumed cfg f c = true ->
     c04_call_ok ctx f c = true ->
     (forall b cons, c04_result_ok ctx f (bd b cons) = true) ->
+    (forall b cons, result_intact cfg f (bd b cons) = true) ->
     run pc check consumes f c bd = twin f c bd.
   Proof.
-    intros pc f c bd G g Hit H Hres. unfold c04_call_ok, c04_args_ok in H. unfold no_iterator_consumed in Hit.
+    intros pc f c bd G g Hit H Hres Hri. unfold c04_call_ok, c04_args_ok in H. unfold no_iterator_consumed in Hit.
     destruct (twin_binding f c) as [b|] eqn:Eb; [|discriminate].
     apply andb_true_iff in H as [H Hret]. apply andb_true_iff in H as [H Hann]. apply andb_true_iff in H as [H _]. apply andb_true_iff in H as [_ Hgood].
     destruct (f_ret f) as [r|] eqn:Er; [|discriminate].
     eapply transparent; try eassumption.
     - intros oa v Hin. rewrite forallb_forall in Hgood. pose proof (Hgood (oa, v) Hin) as Hg. simpl in Hg.
       destruct (good_accepts _ _ Hg) as [a [E Ha]]. subst oa.
-      exists a. split; [reflexivity|]. split; [assumption|]. rewrite forallb_forall in Hit. specialize (Hit _ Hin). simpl in Hit.
+      exists a. split; [reflexivity|]. split; [assumption|]. rewrite forallb_forall in Hit. specialize (Hit _ (in_or_app _ _ _ (or_introl Hin))). simpl in Hit.
       now apply negb_true_iff in Hit.
     - intros b' cons v Ev. specialize (Hres b' cons). rewrite Ev in Hres. unfold c04_result_ok in Hres. rewrite Er in Hres.
-      destruct (good_accepts _ _ Hres) as [a [E Ha]]. now inversion E; subst.
+      destruct (good_accepts _ _ Hres) as [a [E Ha]]. inversion E; subst. split; [assumption|].
+      specialize (Hri b' cons). rewrite Ev in Hri. unfold result_intact in Hri. rewrite Er in Hri. now apply negb_true_iff in Hri.
   Qed.
 
   (* the body runs exactly once, on the binding CPython would have given the undecorated function *)
   Theorem C04_body_once_partial : forall pc f c bd b,
     pc_good pc = true -> kw_guards pc f c -> no_iterator_consumed cfg f c = true -> c04_call_ok ctx f c = true ->
     (forall b cons, c04_result_ok ctx f (bd b cons) = true) ->
+    (forall b cons, result_intact cfg f (bd b cons) = true) ->
     twin_binding f c = Ok b ->
     snd (run pc check consumes f c bd) = [(b, [])].
   Proof.
-    intros pc f c bd b G g Hit H Hres Hb. rewrite (C04_transparent_partial pc f c bd G g Hit H Hres).
+    intros pc f c bd b G g Hit H Hres Hri Hb. rewrite (C04_transparent_partial pc f c bd G g Hit H Hres Hri).
     unfold twin. unfold twin_binding, full_params in Hb. now rewrite Hb.
   Qed.
 
@@ -106,10 +127,11 @@ Section Relative.
   Theorem C04_outcome_passthrough_partial : forall pc f c bd b,
     pc_good pc = true -> kw_guards pc f c -> no_iterator_consumed cfg f c = true -> c04_call_ok ctx f c = true ->
     (forall b cons, c04_result_ok ctx f (bd b cons) = true) ->
+    (forall b cons, result_intact cfg f (bd b cons) = true) ->
     twin_binding f c = Ok b ->
     fst (run pc check consumes f c bd) = bd b [].
   Proof.
-    intros pc f c bd b G g Hit H Hres Hb. rewrite (C04_transparent_partial pc f c bd G g Hit H Hres).
+    intros pc f c bd b G g Hit H Hres Hri Hb. rewrite (C04_transparent_partial pc f c bd G g Hit H Hres Hri).
     unfold twin. unfold twin_binding, full_params in Hb. now rewrite Hb.
   Qed.
 
@@ -118,11 +140,12 @@ Section Relative.
     pc_good pc = true -> kw_guards pc (with_text f t) c -> kw_guards pc (with_text f t') c ->
     no_iterator_consumed cfg f c = true -> c04_call_ok ctx f c = true ->
     (forall b cons, c04_result_ok ctx f (bd b cons) = true) ->
+    (forall b cons, result_intact cfg f (bd b cons) = true) ->
     run pc check consumes (with_text f t) c bd = run pc check consumes (with_text f t') c bd.
   Proof.
-    intros pc f t t' c bd G g g' Hit H Hres.
-    rewrite (C04_transparent_partial pc (with_text f t) c bd G g Hit H Hres).
-    rewrite (C04_transparent_partial pc (with_text f t') c bd G g' Hit H Hres). reflexivity.
+    intros pc f t t' c bd G g g' Hit H Hres Hri.
+    rewrite (C04_transparent_partial pc (with_text f t) c bd G g Hit H Hres Hri).
+    rewrite (C04_transparent_partial pc (with_text f t') c bd G g' Hit H Hres Hri). reflexivity.
   Qed.
 End Relative.
 Print Assumptions C04_transparent_partial.
@@ -136,26 +159,36 @@ Theorem C04_transparent_closed_partial : forall ctx f c bd,
   kw_guards Gen.Pedantic.pedantic_cfg f c -> no_iterator_consumed gcfg f c = true ->
   c04_call_ok ctx f c = true ->
   (forall b cons, c04_result_ok ctx f (bd b cons) = true) ->
+  (forall b cons, result_intact gcfg f (bd b cons) = true) ->
   run1 ctx f c bd = twin f c bd.
 Proof.
-  intros ctx f c bd g Hit H Hres. unfold run1.
-  exact (C04_transparent_partial gcfg ctx (checker1_accepts ctx) _ f c bd C04_cfg_good g Hit H Hres).
+  intros ctx f c bd g Hit H Hres Hri. unfold run1.
+  exact (C04_transparent_partial gcfg ctx (checker1_accepts ctx) _ f c bd C04_cfg_good g Hit H Hres Hri).
 Qed.
 Print Assumptions C04_transparent_closed_partial.
 
 (* the same with the guards stated over the ground truth only (Proofs/PedanticC04.v: truth_guards): a module-level function or
    an instance method whose receiver is called `self`, not hidden behind another decorator, no "@staticmethod" in its text,
-   called by keyword on the receiver the undecorated method would get, no iterator directly under typing.Iterable *)
+   called by keyword on the receiver the undecorated method would get, no one-shot iterator reached by the checker *)
 Theorem C04_transparent_ground_truth_partial : forall ctx f c bd,
   truth_guards f c -> no_iterator_consumed gcfg f c = true ->
   c04_call_ok ctx f c = true ->
   (forall b cons, c04_result_ok ctx f (bd b cons) = true) ->
+  (forall b cons, result_intact gcfg f (bd b cons) = true) ->
   run1 ctx f c bd = twin f c bd.
 Proof.
-  intros ctx f c bd t Hit H Hres. apply C04_transparent_closed_partial; try assumption.
+  intros ctx f c bd t Hit H Hres Hri. apply C04_transparent_closed_partial; try assumption.
   now apply (truth_kw_guards _ C04_cfg_good).
 Qed.
 Print Assumptions C04_transparent_ground_truth_partial.
+
+Ltac guards :=
+  constructor; try reflexivity; try discriminate; try (intros; exact I);
+  try (simpl; lia);
+  try (let p := fresh "p" in let Hp := fresh "Hp" in intros p Hp; simpl in Hp; intuition (subst; discriminate));
+  try (let i := fresh "inst" in let Hi := fresh "Hi" in intros i Hi; vm_compute in Hi; inversion Hi; reflexivity);
+  try (let Hn := fresh "Hn" in intro Hn; exfalso; apply Hn; reflexivity).
+
 
 (* ---------------- refutations of the full statement (known findings) ---------------- *)
 Definition differs (f : fn) (c : call) (bd : body) : Prop := run1 ctx0 f c bd <> twin f c bd.
@@ -180,6 +213,45 @@ Proof.
   repeat split; try reflexivity. unfold differs. vm_compute. discriminate.
 Qed.
 Print Assumptions C04_iterator_consumed_refuted.
+
+(* ... at any depth the traversal of the checker reaches: Optional[Iterable[int]], List[Iterable[int]], Dict[str, Iterable[int]] *)
+Definition AIterInt := AGeneric SpTyping TIterable [AInt].
+Theorem C04_nested_iterator_consumed_refuted : forall a v,
+  In (a, v) [(AUnion UTyping [AIterInt; ACls CNoneType], VIter [one; VInt 2%Z]);
+             (AGeneric SpTyping TList [AIterInt], VList [VIter [one]]);
+             (AGeneric SpTyping TDict [AStrC; AIterInt], VDict [(vx, VIter [one])]);
+             (AGeneric SpTyping TTuple [AInt; AIterInt], VTuple [one; VIter [one]])] ->
+  let f := func "f" [par 9 PosOrKw a None] plain_text in
+  let c := kwcall [] [(9, v)] in
+  c04_call_ok ctx0 f c = true /\ no_iterator_consumed gcfg f c = false
+  /\ snd (run1 ctx0 f c (returns one)) = [([(9, BOne (SKw 9))], [SKw 9])] /\ differs f c (returns one).
+Proof.
+  intros a v H. simpl in H. unfold differs.
+  destruct H as [E|[E|[E|[E|[]]]]]; inversion E; subst; (repeat split; try reflexivity); vm_compute; discriminate.
+Qed.
+Print Assumptions C04_nested_iterator_consumed_refuted.
+
+(* the RESULT: def f() -> Iterable[int]: return iter([1, 2]) - the caller of the decorated function gets the very iterator the body
+   returned, exhausted by the check of the return value: list(f()) == [] *)
+Definition f_returns_iterable : fn :=
+  {| f_name := "f"; f_dotted := false; f_params := []; f_bound := None; f_first_arg := None; f_ret := Some AIterInt;
+     f_coroutine := false; f_generator := false; f_text := plain_text; f_setter := false; f_recv := false |}.
+Theorem C04_result_iterator_consumed_refuted : exists f c bd,
+  c04_call_ok ctx0 f c = true /\ c04_result_ok ctx0 f (bd [] []) = true /\ no_iterator_consumed gcfg f c = true
+  /\ result_intact gcfg f (bd [] []) = false
+  /\ fst (run1 ctx0 f c bd) = Ok (VIter []) /\ fst (twin f c bd) = Ok (VIter [one; VInt 2%Z]) /\ snd (run1 ctx0 f c bd) = snd (twin f c bd).
+Proof.
+  exists f_returns_iterable, (kwcall [] []), (returns (VIter [one; VInt 2%Z])). repeat split; reflexivity.
+Qed.
+Print Assumptions C04_result_iterator_consumed_refuted.
+
+(* ... also nested in the result: -> Optional[List[Iterable[int]]] *)
+Example C04_result_nested_iterator_consumed :
+  let f := {| f_name := "f"; f_dotted := false; f_params := []; f_bound := None; f_first_arg := None;
+              f_ret := Some (AUnion UTyping [AGeneric SpTyping TList [AIterInt]; ACls CNoneType]);
+              f_coroutine := false; f_generator := false; f_text := plain_text; f_setter := false; f_recv := false |} in
+  fst (run1 ctx0 f (kwcall [] []) (returns (VList [VIter [one]; VIter []]))) = Ok (VList [VIter []; VIter []]).
+Proof. reflexivity. Qed.
 
 (* K7: a class method of a @pedantic_class called through a subclass sees the decorated class as cls *)
 Theorem C04_classmethod_via_subclass_refuted : exists f c bd,
@@ -271,6 +343,37 @@ Proof.
 Qed.
 Print Assumptions C04_exhausted_generator_refuted.
 
+(* generators: next() on the wrapper is send(None), and None is checked against the SEND type: with
+   Generator[int, int, None] the second next() raises PedanticTypeCheckException, the undecorated generator yields 2 *)
+Theorem C04_generator_next_with_send_type_refuted : exists body ops rs w',
+  w_run gen_check AInt AInt ANone body wstate0 ops = (rs, w')
+  /\ rs = [WValue one; WRaise PTypeCheckC]
+  /\ map res_of (fst (twin_run body gstate0 ops)) = [WValue one; WValue (VInt 2%Z)].
+Proof.
+  exists (script_body TPropagate [SYield one; SYield (VInt 2%Z); SRet VNone]), [OpNext; OpNext].
+  eexists. eexists. split; [vm_compute; reflexivity|]. split; reflexivity.
+Qed.
+Print Assumptions C04_generator_next_with_send_type_refuted.
+
+(* a positional-only parameter whose NAME is used as a keyword of the call (legal when the function has **kwargs: the keyword goes
+   there): def f(a: int = 0, /, **kw: str); f(a='x') - the undecorated function returns (a = 0, kw = {'a': 'x'}), the
+   decorated one checks 'x' against int *)
+Theorem C04_posonly_name_as_keyword_refuted : exists f c bd,
+  c04_call_ok ctx0 f c = true /\ c04_result_ok ctx0 f (bd [] []) = true
+  /\ run1 ctx0 f c bd = (Raise PTypeCheckC, []) /\ fst (twin f c bd) = Ok one.
+Proof.
+  exists (func "f" [par a_ PosOnly AInt (Some (VInt 0%Z)); par 8 VarKw AStrC None] plain_text), (kwcall [] [(a_, vx)]), (returns one).
+  repeat split; reflexivity.
+Qed.
+Print Assumptions C04_posonly_name_as_keyword_refuted.
+
+(* ... and inside the guards when the name is not used: f(b='x') on def f(a: int = 0, /, **kw: str) *)
+Example C04_posonly_transparent :
+  let f := func "f" [par a_ PosOnly AInt (Some (VInt 0%Z)); par 8 VarKw AStrC None] plain_text in
+  let c := kwcall [] [(b_, vx)] in
+  kw_guards Gen.Pedantic.pedantic_cfg f c /\ c04_call_ok ctx0 f c = true /\ run1 ctx0 f c (returns one) = twin f c (returns one).
+Proof. split; [|split; reflexivity]. guards. Qed.
+
 (* repaired by /repo 9c0ddc8 (only the values collected by *args are checked against its annotation): a method with *args
    called on an instance, and a positional value for the parameter declared before *args *)
 Example C04_method_with_varargs_transparent :
@@ -312,13 +415,6 @@ Example C04_iterator_under_any_transparent :
 Proof. repeat split; reflexivity. Qed.
 
 (* ---------------- the guards are satisfiable ---------------- *)
-Ltac guards :=
-  constructor; try reflexivity; try discriminate; try (intros; exact I);
-  try (simpl; lia);
-  try (let p := fresh "p" in let Hp := fresh "Hp" in intros p Hp; simpl in Hp; intuition (subst; discriminate));
-  try (let i := fresh "inst" in let Hi := fresh "Hi" in intros i Hi; vm_compute in Hi; inversion Hi; reflexivity);
-  try (let Hn := fresh "Hn" in intro Hn; exfalso; apply Hn; reflexivity).
-
 Example C04_guards_function : kw_guards Gen.Pedantic.pedantic_cfg f_plain (kwcall [] [(a_, one)])
   /\ c04_call_ok ctx0 f_plain (kwcall [] [(a_, one)]) = true
   /\ run1 ctx0 f_plain (kwcall [] [(a_, one)]) (returns one) = twin f_plain (kwcall [] [(a_, one)]) (returns one).
